@@ -17,6 +17,8 @@ pub struct Method {
     pub uses_u: bool,
     /// written as `self: &Self` instead of `&self` (same meaning)
     pub typed_receiver: bool,
+    /// no written return type: the effect is observable through the trace only
+    pub ret_unit: bool,
 }
 
 impl Method {
@@ -30,7 +32,7 @@ impl Method {
             ps.push("u: U".into());
         }
         let g = if self.has_gen { format!("<V: ::core::fmt::Debug{}>", if self.is_async { " + Send + Sync" } else { "" }) } else { String::new() };
-        format!("{}fn {}{g}({}) -> String", if self.is_async { "async " } else { "" }, self.name, ps.join(", "))
+        format!("{}fn {}{g}({}){}", if self.is_async { "async " } else { "" }, self.name, ps.join(", "), if self.ret_unit { "" } else { " -> String" })
     }
 
     fn body(&self) -> String {
@@ -54,7 +56,7 @@ impl Method {
             s.push_str("        rt::yield_once().await;\n");
         }
         let args = if parts.is_empty() { "String::new()".to_string() } else { format!("[{}].join(\",\")", parts.join(", ")) };
-        s.push_str(&format!("        let __r = format!(\"{}|{{}}|{{}}\", __id, {args});\n        rt::trace(__r.clone());\n        __r\n    }}", self.tag));
+        s.push_str(&format!("        let __r = format!(\"{}|{{}}|{{}}\", __id, {args});\n        rt::trace(__r.clone());\n        {}\n    }}", self.tag, if self.ret_unit { "" } else { "__r" }));
         s
     }
 
@@ -106,7 +108,7 @@ pub fn gen_case(t: &mut Tape) -> Case {
                 }
             }
             let has_gen = params.iter().any(|p| p.vt == VT::Gen);
-            Method { name: names[i].clone(), tag: format!("M{i}"), is_async: any_async && t.chance(2, 3), params, has_gen, uses_u: generic_trait && t.flip(), typed_receiver: t.chance(1, 8) }
+            Method { name: names[i].clone(), tag: format!("M{i}"), is_async: any_async && t.chance(2, 3), params, has_gen, uses_u: generic_trait && t.flip(), typed_receiver: t.chance(1, 8), ret_unit: t.chance(1, 5) }
         };
         methods.push(m);
     }
@@ -145,6 +147,10 @@ pub fn gen_case(t: &mut Tape) -> Case {
 
     let mut src = String::from("#![allow(warnings)]\nuse crate::rt;\nuse ::core::marker::PhantomData;\n#[derive(Debug, Clone, PartialEq)] pub struct N(pub i32);\n#[derive(Debug, Clone, PartialEq)] pub struct S { pub a: i32 }\n");
     src.push_str("pub trait Sup {}\nimpl<T> Sup for ::entrait::Impl<T> {}\n");
+    // users of `delegate_by = Borrow` / `ref` typically import the std trait by name to write their impl
+    if dynamic && t.flip() {
+        src.push_str(if selector == 3 { "use ::std::borrow::Borrow;\n" } else { "use ::std::convert::AsRef;\nuse ::std::ops::Deref;\n" });
+    }
     src.push_str(&format!("/*GEN*/ #[::entrait::entrait({attr})]\n{at}pub trait Tr{tg}{sup_src} {{\n"));
     for m in &methods {
         src.push_str(&format!("    {};\n", m.sig(false)));
